@@ -52,7 +52,7 @@ CHECKS = {
             "Depth 4 (thorough 5); second BFS with a forced full collection at every allocation (hook H4). Boundedness: 16 garbage patterns (acyclic, cycles of length 1..4 "
             "through each container kind and mixed, closure cycles, dead continuation, shadowed global, bounded queue) x {1, 2} threads, full collection and statistics "
             "sample every 500 iterations: slots in use after a collection constant, accounting invariant at every sample, peak slot count of successive growth/compaction "
-            "cycles not rising; thorough adds the natural policy (no explicit collections) over an iteration ladder up to 3*10^7.",
+            "cycles not rising; thorough adds the natural policy (no explicit collections): the peak slot count after 6*10^7 iterations must not exceed the peak after 3*10^7.",
             "Slot cost per kind is calibrated once on the initial state. With a second running thread only a trend can be judged. Weak boxes with reachable targets are C04's subject.",
             "DESIGN.md §3 C19"),
     "C14": ("exploration",
